@@ -159,6 +159,19 @@ theorem every_entry_point_is_write :
     Gen.pipeWriteString_body = ["return c.Write(s2b(s))"] ∧ Gen.pipeWrite_closedCheckFirst = true := by
   decide
 
+/-- Regenerated structural fact, consumer side: the model's `read` event covers EVERY way bytes can leave the pipe.
+    Only `readNextByteBuffer` receives from a pipe channel, only the unexported `read` calls it (after looking at
+    the partly consumed buffer `c.bb`), only the exported `Read` calls `read`, nothing else touches `c.bb`, and the
+    method set of pipeConn is exactly the one listed (no io.WriterTo / ReadFrom / other consumer): io.Copy,
+    io.ReadFull and bufio all end up in `Read`.  A new consumer that fetches buffers by itself (and could forget
+    `c.bb`) breaks this obligation. -/
+theorem every_consumer_is_read :
+    Gen.pipe_rChReceivers = ["pipeConn.readNextByteBuffer"] ∧ Gen.pipe_callersOfReadNext = ["pipeConn.read"] ∧
+    Gen.pipe_callersOfRead = ["pipeConn.Read"] ∧ Gen.pipe_bbUsers = ["pipeConn.read", "pipeConn.readNextByteBuffer"] ∧
+    Gen.pipeConn_methods = ["Close", "LocalAddr", "Read", "RemoteAddr", "SetDeadline", "SetReadDeadline",
+      "SetWriteDeadline", "Write", "WriteString", "read", "readNextByteBuffer"] := by
+  decide
+
 /-- Regenerated structural fact: Write does not retain the caller's slice.  The value it sends on the channel is the
     variable `b`, `b` is only ever `acquireByteBuffer()` (a pooled buffer of its own), its content is
     `append(b.b[:0], p...)` (a COPY of p), and p is used nowhere else except `len(p)`.  This discharges what the model
